@@ -129,6 +129,18 @@ fn peer_name(fd: RawFd) -> Option<Vec<u8>> {
     }
 }
 
+fn inode_of(fd: RawFd) -> u64 {
+    // SAFETY: fstat fills the local struct.
+    unsafe {
+        let mut st: libc::stat = std::mem::zeroed();
+        if libc::fstat(fd, &mut st) == 0 {
+            st.st_ino as u64
+        } else {
+            0
+        }
+    }
+}
+
 fn is_listening(fd: RawFd) -> bool {
     let mut v: libc::c_int = 0;
     let mut l = std::mem::size_of::<libc::c_int>() as libc::socklen_t;
@@ -179,6 +191,10 @@ pub struct GenRec {
     pub had_server_socket: bool,
     /// number of send actions performed on this generation
     pub sends: usize,
+    /// number of the polling call after which the admission was decided, and the number of
+    /// connections the server's epoll set held before that call
+    pub decided_poll: Option<u64>,
+    pub decided_entries: usize,
 }
 
 impl GenRec {
@@ -233,6 +249,13 @@ pub struct Sim {
     /// max ticks seen in one requests() call
     pub max_ticks: u64,
     pub fd_scan_limit: i32,
+    /// read the epoll set before every polling call (capacity monitors)
+    pub track_entries: bool,
+    pub entries_before_poll: usize,
+    /// descriptors that were open before this simulator was created (stdio, report files...)
+    pub baseline: BTreeSet<i32>,
+    /// server-side socket -> (generation, inode), remembered from when the peer was still alive
+    sock_owner: std::cell::RefCell<std::collections::HashMap<i32, (usize, u64)>>,
 }
 
 pub fn make_request(tag: &str, kind: ReqKind) -> Vec<u8> {
@@ -271,6 +294,7 @@ pub enum ReqKind {
 impl Sim {
     /// `use_path`: bind a path under `run_dir` through HttpServer::new instead of an abstract name.
     pub fn new(with_kill: bool, run_dir: Option<&str>) -> Result<Sim, String> {
+        let baseline: BTreeSet<i32> = open_fds(256).into_iter().collect();
         let n = COUNTER.fetch_add(1, Ordering::Relaxed);
         let name = format!("mhv-{}-{}", std::process::id(), n);
         let (mut server, server_name, server_abstract, sock_path, listener_fd) = match run_dir {
@@ -320,6 +344,10 @@ impl Sim {
             shutdown_seen: 0,
             max_ticks: 0,
             fd_scan_limit: 96,
+            track_entries: false,
+            entries_before_poll: 0,
+            baseline,
+            sock_owner: std::cell::RefCell::new(std::collections::HashMap::new()),
         })
     }
 
@@ -364,6 +392,8 @@ impl Sim {
             send_failed: false,
             had_server_socket: false,
             sends: 0,
+            decided_poll: None,
+            decided_entries: 0,
         });
         self.current[client] = Some(self.gens.len() - 1);
         true
@@ -532,12 +562,24 @@ impl Sim {
 
     /// One gated call of requests(): never called when the epoll descriptor is not readable.
     pub fn poll(&mut self) -> PollOut {
+        let r = self.poll_inner();
+        if r != PollOut::Idle {
+            // remember which server-side socket belongs to whom while the peers are alive
+            self.observe_admissions();
+        }
+        r
+    }
+
+    fn poll_inner(&mut self) -> PollOut {
         self.step += 1;
         if !self.ready() {
             self.idle_polls += 1;
             return PollOut::Idle;
         }
         self.polls += 1;
+        if self.track_entries {
+            self.entries_before_poll = self.epoll_entries().len();
+        }
         micro_http::verif::arm(40_000);
         let r = guarded(|| self.server.requests());
         let ticks = micro_http::verif::disarm();
@@ -678,8 +720,9 @@ impl Sim {
         let prefix = format!("mhvc-{}-{}-", std::process::id(), self.uniq);
         open_fds(self.fd_scan_limit)
             .into_iter()
-            .filter(|fd| !mine.contains(fd) && *fd != self.epfd && *fd != self.kill_fd && is_socket(*fd) && !is_listening(*fd))
+            .filter(|fd| !mine.contains(fd) && !self.baseline.contains(fd) && *fd != self.epfd && *fd != self.kill_fd && is_socket(*fd) && !is_listening(*fd))
             .map(|fd| {
+                let ino = inode_of(fd);
                 let gi = peer_name(fd).and_then(|n| {
                     let t = String::from_utf8_lossy(&n).to_string();
                     let rest = t.strip_prefix(&prefix)?.to_string();
@@ -688,7 +731,19 @@ impl Sim {
                     let g: usize = it.next()?.parse().ok()?;
                     self.gens.iter().position(|x| x.client == c && x.gen == g)
                 });
-                (fd, gi)
+                let mut owners = self.sock_owner.borrow_mut();
+                match gi {
+                    Some(g) => {
+                        owners.insert(fd, (g, ino));
+                        (fd, Some(g))
+                    }
+                    // the peer is gone (getpeername fails): use what was seen while it was alive,
+                    // provided the descriptor still refers to the same socket
+                    None => match owners.get(&fd) {
+                        Some((g, i)) if *i == ino => (fd, Some(*g)),
+                        _ => (fd, None),
+                    },
+                }
             })
             .collect()
     }
@@ -708,6 +763,8 @@ impl Sim {
                 if self.gens[*gi].admission == Admission::Pending {
                     self.gens[*gi].admission = Admission::Accepted;
                     self.gens[*gi].limit_at_accept = self.limit;
+                    self.gens[*gi].decided_poll = Some(self.polls);
+                    self.gens[*gi].decided_entries = self.entries_before_poll;
                 }
                 self.gens[*gi].had_server_socket = true;
             }
@@ -723,6 +780,8 @@ impl Sim {
                 let n = unsafe { libc::recv(fd, buf.as_mut_ptr() as *mut libc::c_void, buf.len(), libc::MSG_PEEK | libc::MSG_DONTWAIT) };
                 if n == 0 || (n >= 12 && &buf[..12] == b"HTTP/1.1 503") {
                     self.gens[gi].admission = Admission::Refused;
+                    self.gens[gi].decided_poll = Some(self.polls);
+                    self.gens[gi].decided_entries = self.entries_before_poll;
                 }
             }
         }
